@@ -987,6 +987,13 @@ def search_one(ctx, kind, quick=True):
         m1 = pre_ops(rng, m1, info)
         if kind.endswith("2"):
             cls2 = meshes.CLS[kind]
+            if base == "tri" and rng.random() < 0.5:
+                # cells NOT stored with ascending vertex numbers (as in MeshTri2(), loaded or oriented meshes);
+                # facets are numbered by their vertex sets, so the tags stay valid
+                t_un = meshes.local_reorder(rng, "tri", m1.t.astype(np.int64)).astype(np.int32)
+                m1 = type(m1)(m1.p, np.ascontiguousarray(t_un), sort_t=False, _boundaries=m1._boundaries,
+                              _subdomains=m1._subdomains)
+                info["unsorted-cells"] = True
             m2 = cls2.from_mesh(m1)
             if m1.boundaries:
                 m2 = m2.with_boundaries(dict(m1.boundaries))
@@ -1057,6 +1064,26 @@ def search_one(ctx, kind, quick=True):
         if not same:
             ctx.violation("refined(k) differs from k times refined()", replay_of(m, info, levels, how, None),
                           signature(kind, "refined(k)!=repeated", m, levels))
+    # refining the SAME mesh object once more gives the same mesh, and the operand is what it was (a refinement
+    # that re-sorts or otherwise rewrites the arrays of its operand shows in the second call)
+    try:
+        before = (m.p.copy(), m.t.copy())
+        ra, _ = refine_with_log(m, None)
+        rb, _ = refine_with_log(m, None)
+        ctx.count("same-object-refined-twice")
+        if not (np.array_equal(before[0], m.p) and np.array_equal(before[1], m.t)):
+            ctx.violation("refined() modified the arrays of the mesh it was called on",
+                          replay_of(m, info, 1, "refined() twice on one object", None),
+                          signature(kind, "operand-modified", m, 1))
+        elif not (np.array_equal(ra.p, rb.p) and np.array_equal(ra.t, rb.t)
+                  and tag_lists(ra.subdomains) == tag_lists(rb.subdomains)
+                  and tag_lists(ra.boundaries) == tag_lists(rb.boundaries)):
+            ctx.violation("refining the same mesh object twice gives two different meshes",
+                          replay_of(m, info, 1, "refined() twice on one object", None),
+                          signature(kind, "second-call-differs", m, 1))
+    except Exception as e:
+        ctx.violation("second refined() on the same object raised " + exc_kind(e),
+                      replay_of(m, info, 1, "refined() twice on one object", repr(e)), signature(kind, "raise", m, 1))
     nb = 0 if not m.boundaries else len(m.boundaries)
     ns = 0 if not m.subdomains else len(m.subdomains)
     ctx.case({"cls": type(m).__name__, "p": m.p.tolist(), "t": m.t.tolist(), "tags": tags_descr(m), "k": levels,
